@@ -70,22 +70,85 @@ func parseParams(leg string, s string) params {
 	return p
 }
 
+// kinds of scenario (legs) of which a case has already failed all its attempts in this process: a tree that really
+// hangs there must not cost three long attempts per case
+var hangingLegs = map[string]bool{}
+var hangCount = map[string]int{}
+
+// wall time spent in second and third attempts; once it is used up every case gets a single attempt, so that a tree
+// that really hangs everywhere still ends well within the leg's timeout
+var retrySpent time.Duration
+
+const retryBudget = 150 * time.Second
+
 func runCase(o *hx.Out, p params) (result string, total int64) {
-	pendingStuck = ""
-	result, total = runCase1(o, p)
-	if pendingStuck != "" {
-		first := pendingStuck
+	scales := []time.Duration{1, 4, 10}
+	if hangingLegs[p.leg] || retrySpent > retryBudget {
+		scales = scales[:1]
+	}
+	defer func() { stepTimeout = baseStepTimeout }()
+	first := ""
+	for i, sc := range scales {
+		stepTimeout = baseStepTimeout * sc
 		pendingStuck = ""
-		cleanTmp()
+		if i > 0 {
+			cleanTmp()
+		}
+		t0 := time.Now()
 		result, total = runCase1(o, p)
-		if pendingStuck != "" {
-			o.Violation("correspondence:schedule-not-realisable", pendingStuck)
-		} else {
-			o.Count("schedule-stuck-once-then-completed")
-			fmt.Fprintln(os.Stderr, "completed at the second attempt: "+first)
+		if i > 0 {
+			retrySpent += time.Since(t0)
+		}
+		if pendingStuck == "" {
+			if i > 0 {
+				o.Count(fmt.Sprintf("schedule-completed-at-attempt-%d", i+1))
+				fmt.Fprintf(os.Stderr, "completed at attempt %d: %s\n", i+1, first)
+			}
+			return result, total
+		}
+		if first == "" {
+			first = pendingStuck
 		}
 	}
+	// no attempt completed: a verdict only if the machine is not starved right now
+	if late := schedulingLateness(); late > 200*time.Millisecond {
+		o.Count("machine-late(no-verdict)")
+		fmt.Fprintf(os.Stderr, "not completed, machine late by %v (no verdict): %s\n", late, pendingStuck)
+	} else {
+		o.Violation("correspondence:schedule-not-realisable", fmt.Sprintf("%s (all %d attempts, bounds up to %v per step; scheduling lateness now %v)",
+			pendingStuck, len(scales), stepTimeout, late))
+		hangingLegs[p.leg] = true
+		hangCount[p.leg]++
+	}
+	pendingStuck = ""
 	return result, total
+}
+
+// schedulingLateness: how much later than asked does a 5 ms sleep return, at worst, over a short series (a machine
+// whose runnable goroutines wait for hundreds of milliseconds makes every bounded wait of the harness meaningless).
+func schedulingLateness() time.Duration {
+	var worst time.Duration
+	// the WAL of the node under test is on a real disk, shared with whatever else runs on the machine
+	for i := 0; i < 3; i++ {
+		t0 := time.Now()
+		if f, err := os.CreateTemp(tmpRoot, "probe"); err == nil {
+			f.Write(make([]byte, 4096))
+			f.Sync()
+			f.Close()
+			os.Remove(f.Name())
+		}
+		if d := time.Since(t0); d > worst {
+			worst = d
+		}
+	}
+	for i := 0; i < 40; i++ {
+		t0 := time.Now()
+		time.Sleep(5 * time.Millisecond)
+		if d := time.Since(t0) - 5*time.Millisecond; d > worst {
+			worst = d
+		}
+	}
+	return worst
 }
 
 func runCase1(o *hx.Out, p params) (result string, total int64) {
@@ -110,7 +173,13 @@ func runCase1(o *hx.Out, p params) (result string, total int64) {
 	panic("unknown leg " + p.leg)
 }
 
+var lastRecord = time.Now()
+
 func record(o *hx.Out, p params, res string) {
+	if d := time.Since(lastRecord); d > 300*time.Millisecond && os.Getenv("C07_LEAKDBG") != "" {
+		fmt.Fprintln(os.Stderr, "SLOW", d, p.leg, p.String(), "=>", res)
+	}
+	lastRecord = time.Now()
 	lastCase = p.leg + " " + p.String() + " => " + res
 	noteLeaks(o)
 	nt := ""
@@ -239,6 +308,10 @@ func main() {
 		for used := 0; used < legBudget; {
 			if time.Now().After(legDeadline) {
 				o.Count("stopped:process-life-limit:" + lg.leg)
+				break
+			}
+			if hangCount[lg.leg] >= 3 {
+				o.Count("stopped:schedules-do-not-complete:" + lg.leg)
 				break
 			}
 			p := params{leg: lg.leg, wseed: r.U64() >> 1, crashAt: -1, mode: "p", restart: "leader"}
